@@ -5,6 +5,7 @@ package stats
 import (
 	"bytes"
 	"context"
+	"encoding/gob"
 	"encoding/json"
 	"fmt"
 	"go/ast"
@@ -36,6 +37,8 @@ type c09Ctx struct {
 	dir   string
 	clock atomic.Uint32
 	hook  *c09Hook
+	// down is set between C09.close and C09.open
+	down bool
 }
 
 // c09Hook lets a harness op stall the implementation at a log call (the
@@ -168,7 +171,8 @@ func (c *c09Ctx) dumpDB() string {
 
 				return nil
 			}
-			parts = append(parts, fmt.Sprintf("%d:%d:%s", id, udb.NTotal, c09Counters(udb.NResult)))
+			parts = append(parts, fmt.Sprintf("%d:%d:%s", id, udb.NTotal, c09Counters(udb.NResult))+
+				c09CodecCheck(tx.Bucket(name), udb))
 
 			return nil
 		})
@@ -181,6 +185,110 @@ func (c *c09Ctx) dumpDB() string {
 	}
 
 	return strings.Join(parts, ";")
+}
+
+// dumpFile lists the buckets of the database file of a closed context.
+func (c *c09Ctx) dumpFile() string {
+	db, err := bbolt.Open(filepath.Join(c.dir, "stats.db"), 0o644, &bbolt.Options{ReadOnly: true, Timeout: time.Second})
+	if err != nil {
+		return "openerr-" + vutil.Hex(err.Error())
+	}
+	defer func() { _ = db.Close() }()
+	c.s.db.Store(db)
+	defer c.s.db.Store(nil)
+
+	return c.dumpDB()
+}
+
+// observeDown is the observation while the context is closed.
+func (c *c09Ctx) observeDown() []string {
+	s := c.s
+
+	return []string{"p0", vutil.B(s.enabled), strconv.FormatInt(s.limit.Milliseconds(), 10),
+		strconv.FormatUint(uint64(s.curr.id), 10), strconv.FormatUint(s.curr.nTotal, 10), c09Counters(s.curr.nResult),
+		c.dumpFile(), "closed"}
+}
+
+// c09MirrorUnit is an independent description of what a bucket holds: the gob
+// stream under the single key {0}, with these field names and types.  It is
+// decoded from the raw bytes and compared with what the package's own
+// loadUnitFromDB returned; the per-name lists must also account for the
+// counters (the harness never uses more than 100 names per hour).
+type c09MirrorPair struct {
+	Name  string
+	Count uint64
+}
+
+type c09MirrorUnit struct {
+	NResult            []uint64
+	Domains            []c09MirrorPair
+	BlockedDomains     []c09MirrorPair
+	Clients            []c09MirrorPair
+	UpstreamsResponses []c09MirrorPair
+	UpstreamsTimeSum   []c09MirrorPair
+	NTotal             uint64
+	TimeAvg            uint32
+}
+
+// c09CodecCheck returns "" when the bucket is what the model takes it to be,
+// a marker otherwise (the model never predicts a marker).
+func c09CodecCheck(bkt *bbolt.Bucket, udb *unitDB) string {
+	if bkt == nil {
+		return "!nobucket"
+	}
+	keys := 0
+	_ = bkt.ForEach(func(k, _ []byte) error {
+		if len(k) != 1 || k[0] != 0 {
+			keys += 100
+		}
+		keys++
+
+		return nil
+	})
+	if keys != 1 {
+		return "!keys"
+	}
+	m := &c09MirrorUnit{}
+	if err := gob.NewDecoder(bytes.NewReader(bkt.Get([]byte{0}))).Decode(m); err != nil {
+		return "!gob"
+	}
+	if m.NTotal != udb.NTotal || c09Counters(m.NResult) != c09Counters(udb.NResult) || len(m.NResult) != int(resultLast) ||
+		len(m.Clients) != len(udb.Clients) || len(m.Domains) != len(udb.Domains) ||
+		len(m.BlockedDomains) != len(udb.BlockedDomains) || m.TimeAvg != udb.TimeAvg {
+		return "!codec"
+	}
+	sum := func(a []c09MirrorPair) (n uint64) {
+		for _, p := range a {
+			n += p.Count
+		}
+
+		return n
+	}
+	for i, p := range m.Clients {
+		if p.Name != udb.Clients[i].Name || p.Count != udb.Clients[i].Count {
+			return "!codec"
+		}
+	}
+	var blocked uint64
+	for _, x := range m.NResult[RFiltered:] {
+		blocked += x
+	}
+	if sum(m.Clients) != m.NTotal || sum(m.Domains) != m.NResult[RNotFiltered] || sum(m.BlockedDomains) != blocked ||
+		m.NResult[0] != 0 {
+		return "!sums"
+	}
+
+	return ""
+}
+
+func c09SumTop(a []topAddrs) (n uint64) {
+	for _, m := range a {
+		for _, v := range m {
+			n += v
+		}
+	}
+
+	return n
 }
 
 // c09Read performs GET /control/stats through the real handler.
@@ -213,7 +321,10 @@ func (c *c09Ctx) read() (out []string) {
 		c09Series(resp.ReplacedSafebrowsing), c09Series(resp.ReplacedParental),
 		strconv.FormatUint(resp.NumDNSQueries, 10), strconv.FormatUint(resp.NumBlockedFiltering, 10),
 		strconv.FormatUint(resp.NumReplacedSafebrowsing, 10), strconv.FormatUint(resp.NumReplacedSafesearch, 10),
-		strconv.FormatUint(resp.NumReplacedParental, 10)}
+		strconv.FormatUint(resp.NumReplacedParental, 10),
+		// the top lists of the answer, summed (complete: never more than 100 names)
+		strconv.FormatUint(c09SumTop(resp.TopClients), 10), strconv.FormatUint(c09SumTop(resp.TopQueried), 10),
+		strconv.FormatUint(c09SumTop(resp.TopBlocked), 10)}
 }
 
 // observe is the canonical observation after an operation.
@@ -291,7 +402,38 @@ func c09Run(f []string) []string {
 	if c == nil || c.s == nil {
 		panic("no context: block must start with C09.reset")
 	}
+	if c.down {
+		switch op {
+		case "C09.advance":
+			c.clock.Store(c09U32(f[1]))
+
+			return c.observeDown()
+		case "C09.open":
+			s, err := New(c.conf(c09I64(f[1]), vutil.UnB(f[2])))
+			if err != nil {
+				panic("New: " + err.Error())
+			}
+			c.s = s
+			c.down = false
+
+			return c.observe(true, 0)
+		default:
+			panic("context is closed: only C09.advance / C09.open, got " + op)
+		}
+	}
 	switch op {
+	case "C09.advance":
+		// the UnitID generator moves on; the flush goroutine has not run yet
+		c.clock.Store(c09U32(f[1]))
+
+		return c.observe(false, 0)
+	case "C09.close":
+		if err := c.s.Close(); err != nil {
+			panic("Close: " + err.Error())
+		}
+		c.down = true
+
+		return c.observeDown()
 	case "C09.upd":
 		res, n := c09I64(f[1]), vutil.Atoi(f[2])
 		e := &Entry{
@@ -387,14 +529,25 @@ func c09Run(f []string) []string {
 			defer close(done)
 			c.httpDo(c.s.handleStatsReset, http.MethodPost, "")
 		}()
-		for c.s.db.Load() != nil {
+		for i := 0; c.s.db.Load() != nil && i < 20000; i++ {
 			time.Sleep(50 * time.Microsecond)
 		}
-		mid := c.read()
+		// (with confMu held by the reset, as in the repaired tree, the swap does
+		// happen but the read below waits for the reset instead of failing)
+		midCh := make(chan string, 1)
+		go func() { midCh <- c.read()[0] }()
+		mid := "blocked"
+		select {
+		case mid = <-midCh:
+		case <-time.After(300 * time.Millisecond):
+		}
 		_ = tx.Rollback()
 		<-done
+		if mid == "blocked" {
+			<-midCh
+		}
 
-		return append([]string{"mid=" + mid[0]}, c.observe(true, 0)...)
+		return append([]string{"mid=" + mid}, c.observe(true, 0)...)
 	case "C09.resetrace":
 		// POST /control/stats_reset racing with the hourly flush: clear() is
 		// stalled right after it has opened the new file (at its "database
@@ -408,9 +561,16 @@ func c09Run(f []string) []string {
 			c.httpDo(c.s.handleStatsReset, http.MethodPost, "")
 		}()
 		<-c.hook.reached
-		c.s.flush()
+		// in the repaired tree the reset holds confMu and the flush has to wait
+		flushed := make(chan struct{})
+		go func() { defer close(flushed); c.s.flush() }()
+		select {
+		case <-flushed:
+		case <-time.After(300 * time.Millisecond):
+		}
 		c.hook.release <- struct{}{}
 		<-done
+		<-flushed
 
 		return c.observe(true, 0)
 	default:
@@ -576,6 +736,19 @@ func c09GenGap(r *rand.Rand, limitH int64) uint32 {
 	}
 }
 
+// c09Lag advances the clock by a gap that matters around the window edge.
+func c09Lag(r *rand.Rand, clock uint32, limH int64) uint32 {
+	gap := vutil.Pick(r, []int64{1, 1, 1, 2, 3, limH - 1, limH, limH + 1, 30, 24, 25})
+	if gap < 1 {
+		gap = 1
+	}
+	if uint64(clock)+uint64(gap) < 4294967295 {
+		clock += uint32(gap)
+	}
+
+	return clock
+}
+
 func c09GenResult(r *rand.Rand) int {
 	switch r.IntN(40) {
 	case 0:
@@ -652,6 +825,27 @@ func c09Gen(r *rand.Rand, emit vutil.Emit) {
 					clock += gap
 				}
 				emit("C09.tick", vutil.Itoa(int(clock)))
+			case k < cfgWeight+73:
+				// the clock moves on without a flush (suspend/resume, slow poller)
+				clock = c09Lag(r, clock, limH)
+				emit("C09.advance", vutil.Itoa(int(clock)))
+			case k < cfgWeight+78 && r.IntN(2) == 0:
+				// a restart in its real parts: [advance] Close [advance] New
+				if r.IntN(5) < 3 {
+					clock = c09Lag(r, clock, limH)
+					emit("C09.advance", vutil.Itoa(int(clock)))
+				}
+				emit("C09.close")
+				if r.IntN(3) == 0 {
+					clock = c09Lag(r, clock, limH)
+					emit("C09.advance", vutil.Itoa(int(clock)))
+				}
+				lm := limH * 3600000
+				if r.IntN(4) == 0 {
+					lm = c09GenLimit(r)
+				}
+				limH = lm / 3600000
+				emit("C09.open", strconv.FormatInt(lm, 10), vutil.B(r.IntN(12) > 0))
 			case k < cfgWeight+78:
 				if r.IntN(2) == 0 {
 					gap := c09GenGap(r, limH)
